@@ -69,7 +69,9 @@ func moduleFile(k int, name string, deps [][2]interface{}, depNames []string, pu
 		}
 		st = append(st, pr(sl("touch"), call("Touch")), pr(sl("hits"), vr("Hits"), Len{vr("trail")}))
 		st = append(st, ExprStmt{call("tail")}, pr(sl("init-done"), il(K), vr("Count")))
-		st = append(st, def("Last", bin("+", vr("Count"), il(0))), fn("Closing", nil, []Type{TInt}, ret(vr("Last"))))
+		// a global whose initialiser depends on the top-level statements before it (the order of a file's statements
+		// is the order of its text, definitions included)
+		st = append(st, def("Last", bin("+", vr("Count"), il(0))), fn("Closing", nil, []Type{TInt}, ret(vr("Last"))), pr(sl("last"), il(K), vr("Last"), call("Closing")))
 	}
 	if salt >= 0 {
 		st = append(st, RawStmt{fmt.Sprintf("// variant %d", salt)})
@@ -379,6 +381,10 @@ func checkC09(c *Check) {
 		{"unknown-alias-own-function-of-that-name", "import m \"lib.tsh\"\n\nfunc Pub() int {\n\treturn 10\n}\nprint(mx.Pub())\n", map[string]string{"lib.tsh": lib}, false},
 		{"unknown-alias-own-function-in-function", "import m \"lib.tsh\"\n\nfunc Double(a int) int {\n\treturn a * 2\n}\nfunc use() int {\n\treturn zz.Double(4)\n}\nprint(use())\n", map[string]string{"lib.tsh": lib}, false},
 		{"alias-of-other-import-for-function", "import (\n\tm \"lib.tsh\"\n\tn \"lib2.tsh\"\n)\n\nprint(n.Pub())\n", map[string]string{"lib.tsh": lib, "lib2.tsh": "func Other() int {\n\treturn 1\n}\n"}, false},
+		{"explicit-alias-equals-implicit-std-alias", "import (\n\tstrings \"lib.tsh\"\n\t\"strings\"\n)\n\nprint(strings.Pub())\n", map[string]string{"lib.tsh": lib}, false},
+		{"implicit-std-alias-then-same-explicit-alias", "import (\n\t\"strings\"\n\tstrings \"lib.tsh\"\n)\n\nprint(strings.Contains(\"a\", \"a\"))\n", map[string]string{"lib.tsh": lib}, false},
+		{"same-std-module-twice-without-alias", "import (\n\t\"strings\"\n\t\"strings\"\n)\n\nprint(strings.Contains(\"a\", \"a\"))\n", nil, false},
+		{"std-module-under-two-aliases", "import (\n\ts1 \"strings\"\n\ts2 \"strings\"\n)\n\nprint(s1.Contains(\"a\", \"a\"), s2.HasPrefix(\"ab\", \"a\"))\n", nil, true},
 		{"unknown-function", "import m \"lib.tsh\"\n\nprint(m.Nope())\n", map[string]string{"lib.tsh": lib}, false},
 		{"duplicate-alias", "import (\n\tm \"lib.tsh\"\n\tm \"lib2.tsh\"\n)\n\nprint(m.Pub())\n", map[string]string{"lib.tsh": lib, "lib2.tsh": lib + "// other\n"}, false},
 		{"missing-file", "import m \"nope.tsh\"\n\nprint(1)\n", nil, false},
